@@ -1,5 +1,6 @@
 """Worker process: runs execnet.loads / load on untrusted bytes under RLIMIT_AS.
-stdin lines:  <mode> <hex|->      mode: three bits py2str_as_py3str py3str_as_py2str useStream
+stdin lines:  <mode> <hex|->      mode: py2str_as_py3str py3str_as_py2str stream   (stream: 0 = loads(bytes), 1 = load(BytesIO),
+                                  2 / 3 = load() from a stream whose read(n) hands out at most 1 / 3 bytes at a time)
 stdout lines: ok <tokens> | huge | err <ExceptionClass>
 """
 import io
@@ -36,14 +37,27 @@ def size(v, budget):
     return n
 
 
+class ShortReads:
+    def __init__(self, data, k):
+        self.data, self.pos, self.k = data, 0, k
+
+    def read(self, n=-1):
+        n = self.k if n is None or n < 0 else min(n, self.k)
+        piece = self.data[self.pos:self.pos + n]
+        self.pos += len(piece)
+        return piece
+
+
 def main():
     out = sys.stdout
     for line in sys.stdin:
         mode, h = line.split()
         data = b"" if h == "-" else bytes.fromhex(h)
-        a, b, stream = mode[0] == "1", mode[1] == "1", mode[2] == "1"
+        a, b, stream = mode[0] == "1", mode[1] == "1", mode[2]
         try:
-            if stream:
+            if stream in "23":
+                v = execnet.load(ShortReads(data, 1 if stream == "2" else 3), py2str_as_py3str=a, py3str_as_py2str=b)
+            elif stream == "1":
                 v = execnet.load(io.BytesIO(data), py2str_as_py3str=a, py3str_as_py2str=b)
             else:
                 v = execnet.loads(data, py2str_as_py3str=a, py3str_as_py2str=b)
